@@ -486,7 +486,7 @@ fn u13_3_header_head_gates() {
 
 // version conversion of a bone keeps all content representable in both versions: every version from TBC (260) on stores the
 // bone name CRC, so converting between any two of them - or from any of them to TBC - keeps it, together with the scalar fields
-// @harness unit=U13.3 props=C13 kind=complete timeout=600 target="chunks/bone.rs: M2Bone::convert (every scalar field value, every target version)" oracle=m2_records
+// @harness unit=U13.3 props=C13 kind=complete timeout=600 target="chunks/bone.rs: M2Bone::convert (every scalar field value, every target version)" oracle=m2_model
 #[kani::proof]
 #[kani::unwind(8)]
 #[kani::stub(alloc::fmt::format, stub_format)]
